@@ -7,12 +7,13 @@ if [ -f "$(dirname $P)/patch_rebased.diff" ]; then P="$(dirname $P)/patch_rebase
 cd /repo || exit 2
 if ! git diff --quiet; then echo "/repo has uncommitted changes"; exit 2; fi
 if ! git apply --3way "$P" 2>/tmp/apply.err; then
-  if ! git apply "$P" 2>>/tmp/apply.err; then cat /tmp/apply.err; git checkout -- . ; exit 2; fi
+  git reset -q --hard HEAD
+  if ! git apply "$P" 2>>/tmp/apply.err; then cat /tmp/apply.err; git reset -q --hard HEAD ; exit 2; fi
 fi
 git reset -q
 cd /verif && ./check "$ID" --tier "$TIER" > /tmp/mutant_$ID.out 2>&1
 RC=$?
-cd /repo && git checkout -- . && git status --short | grep -v '^??' 
+cd /repo && git reset -q --hard HEAD && git status --short | grep -v '^??' 
 echo "check exit=$RC"
 grep -c "^VIOLATION" /tmp/mutant_$ID.out
 grep "^VIOLATION" /tmp/mutant_$ID.out | head -3
